@@ -2,12 +2,15 @@
 Engine `Ops` (C09, C10): arithmetic of `Scalar` and `Array` objects with plain numbers, numpy arrays
 and each other, written after the Python function by function.
 
-Modelled code (as it is in /repo now, repairs 82f5449, bbf2089, 12bb4de, 1e63d4c, e246554 included):
+Modelled code (as it is in /repo now, repairs 82f5449, bbf2089, 12bb4de, 1e63d4c, e246554, 4829052 included):
 * `barril/_util/types_.py`      `IsNumber`
 * `barril/units/_scalar.py`     `Scalar._DoOperation`, the ten operator methods
 * `barril/units/_array.py`      `Array._DoOperation` (number / ndarray branches, length check, vectorised
-                                branch, per-element branch with the `(1.0, 1.0)` probe, result container),
-                                the ten operator methods, `FromScalars`, `CreateEmptyArray`, `GetAbstractValue`
+                                branch, per-element branch with the `(1.0, 1.0)` probe for value-less operands,
+                                result container), the ten operator methods and the legacy `__rdiv__`,
+                                `FromScalars` (every keyword form; Scalars of simple, derived and empty
+                                quantities), `CreateEmptyArray`, `GetAbstractValue` (flat containers and
+                                lists / tuples of tuples), `__str__`; Arrays whose `values` is a bare number
 * `barril/units/_value_generator.py`  `_ValueGenerator.IsNumpy/IsTuple/__iter__`
 * `barril/units/unit_database.py`     `Sum/Subtract/Multiply/Divide/FloorDivide`, `_DoOperationWithSameQuantity`,
                                 `_DoOperationResultingInNewQuantity`, `_MatchQuantities`, `_ConvertMatchingExp`
@@ -29,6 +32,7 @@ Quantities are the ordered dict `category → [unit, exponent]` (`unknown_unit_c
 all modelled quantities have the empty caption).
 -/
 import Barril.Model.Conv
+import Barril.Model.StrRender
 
 namespace Barril.Ops
 open Barril
@@ -63,9 +67,51 @@ structure Env where
   convertLookup : Sym → Sym → Sym → Except ErrKind Unit
   /-- `GetInfo(quantity_type, unit).tobase` -/
   toBase : Sym → Sym → Except ErrKind (Rat → Except ErrKind Rat)
+  /-- `GetDefaultCategory(unit)` (`None` = no default category; a `KeyError` of the legacy retry is an error) -/
+  defaultCategory : Sym → Except ErrKind (Option Sym)
+  /-- `ObtainQuantity(unit, category)` with two strings → `Quantity(category, unit)`: `GetCategoryInfo`, then
+  `CheckCategoryUnit`, retried once with the legacy spelling fixed; answers the unit the quantity stores -/
+  obtainSimple : Sym → Sym → Except ErrKind Sym
+
+/-- the row `unit_to_unit_info[unit]` used by `GetDefaultCategory`: `KeyError` is retried with the legacy
+spelling fixed (a second `KeyError` propagates), a non-legacy unknown unit gives `None` -/
+def defaultCatRow (db : Db) (u : Sym) : Except ErrKind (Option UnitRow) :=
+  match db.unitBySym u with
+  | some r => .ok (some r)
+  | none =>
+    if isLegacy db.legacy u then
+      match db.unitBySym (fixLegacy db.legacy u) with
+      | some r => .ok (some r)
+      | none => .error .key
+    else .ok none
+
+/-- `UnitDatabase.GetDefaultCategory(unit)`: the row's default category when truthy, else the quantity type
+when that is a category, else `None` -/
+def getDefaultCategory (db : Db) (u : Sym) : Except ErrKind (Option Sym) :=
+  match defaultCatRow db u with
+  | .error e => .error e
+  | .ok none => .ok none
+  | .ok (some r) =>
+    if r.defaultCat != 0 then .ok (some r.defaultCat)
+    else match db.catByName r.qtype with
+      | some _ => .ok (some r.qtype)
+      | none => .ok none
+
+/-- simple branch of `Quantity.__init__(category, unit)` for two strings: `GetCategoryInfo(category)`
+(`InvalidQuantityTypeError`), `CheckCategoryUnit`, retried once with the legacy spelling fixed -/
+def newSimpleQuantity (db : Db) (c u : Sym) : Except ErrKind Sym :=
+  match db.catByName c with
+  | none => .error .units
+  | some _ =>
+    if db.categoryUnitValid c u then .ok u
+    else if isLegacy db.legacy u then
+      (if db.categoryUnitValid c (fixLegacy db.legacy u) then .ok (fixLegacy db.legacy u) else .error .units)
+    else .error .units
 
 /-- the database of the `Conv` engine as an `Env` -/
 def Env.ofDb (db : Db) : Env where
+  defaultCategory := getDefaultCategory db
+  obtainSimple := newSimpleQuantity db
   qtype c := match db.catByName c with
     | some ci => .ok ci.qtype
     | none => .error .units
@@ -319,6 +365,9 @@ inductive Operand
   | array (q : Quantity) (kind : Kind) (vs : List Rat)
   /-- anything else (str, None, list, …): no `GetQuantity`, no `values` -/
   | junk
+  /-- an Array whose `values` attribute is a bare number (`Array.CreateWithQuantity(q, 3.0)`: nothing checks
+  the container): `_ValueGenerator` neither iterates it nor treats it as numpy, `len()` of it is a `TypeError` -/
+  | array0 (q : Quantity) (v : Rat)
 deriving DecidableEq, Repr
 
 inductive Out
@@ -329,7 +378,7 @@ inductive Out
 deriving DecidableEq, Repr
 
 def Operand.isBarril : Operand → Bool
-  | .scalar .. | .array .. => true
+  | .scalar .. | .array .. | .array0 .. => true
   | _ => false
 
 def Out.quantity? : Out → Option Quantity
@@ -348,7 +397,7 @@ def isNumber : Operand → Option Rat
 
 /-- `p.GetQuantity()`; `AttributeError` is `.other` -/
 def quantityOf : Operand → Except ErrKind Quantity
-  | .scalar q _ | .array q _ _ => .ok q
+  | .scalar q _ | .array q _ _ | .array0 q _ => .ok q
   | _ => .error .other
 
 /-- `p.value` -/
@@ -475,7 +524,13 @@ def rawOf : Operand → Option Raw
 /-- `p.values` -/
 def valuesOf : Operand → Except ErrKind Raw
   | .array _ kind vs => .ok (.seq kind vs)
+  | .array0 _ v => .ok (.num v)
   | _ => .error .other
+
+/-- `len(p.values)`: a bare number has no `len()` (`TypeError`) -/
+def rawLen : Raw → Except ErrKind Nat
+  | .seq _ vs => .ok vs.length
+  | .num _ => .error .type
 
 /-- from "unit_database = self.GetUnitDatabase()" to the end of `Array._DoOperation` -/
 def arrayCompute (env : Env) (op : Op) (q1 q2 : Quantity) (r1 r2 : Raw) : Except ErrKind Out :=
@@ -490,12 +545,16 @@ def arrayCompute (env : Env) (op : Op) (q1 q2 : Quantity) (r1 r2 : Raw) : Except
         | .error e => .error e
         | .ok vs => .ok (.array q .nd vs)
     else
-      match applyOp op t1 t2 1 1 with           -- q, _ = operation_func(q1, q2, 1.0, 1.0)
+      -- the element loop first (repair 4829052); only when it produced no quantity (no values):
+      -- q, _ = operation_func(q1, q2, 1.0, 1.0)
+      match mapE (fun p => applyOp op t1 t2 p.1 p.2) (genPairs r1 r2) with
       | .error e => .error e
-      | .ok _ =>
-        match mapE (fun p => applyOp op t1 t2 p.1 p.2) (genPairs r1 r2) with
-        | .error e => .error e
-        | .ok vs => .ok (.array q (if genIsTuple r1 r2 then .tuple else .list) vs)
+      | .ok vs =>
+        if (genPairs r1 r2).isEmpty then
+          match applyOp op t1 t2 1 1 with
+          | .error e => .error e
+          | .ok _ => .ok (.array q (if genIsTuple r1 r2 then .tuple else .list) vs)
+        else .ok (.array q (if genIsTuple r1 r2 then .tuple else .list) vs)
 
 def arrayDoOp (env : Env) (p1 p2 : Operand) (op : Op) : Except ErrKind Out :=
   match rawOf p1 with
@@ -519,17 +578,23 @@ def arrayDoOp (env : Env) (p1 p2 : Operand) (op : Op) : Except ErrKind Out :=
       match valuesOf p1 with
       | .error e => .error e
       | .ok r1 =>
-        match valuesOf p2 with
+        match rawLen r1 with                    -- len(p1.values)
         | .error e => .error e
-        | .ok r2 =>
-          if (rawValues r1).length != (rawValues r2).length then .error .value
-          else
-            match quantityOf p1 with
+        | .ok n1 =>
+          match valuesOf p2 with
+          | .error e => .error e
+          | .ok r2 =>
+            match rawLen r2 with                -- len(p2.values)
             | .error e => .error e
-            | .ok q1 =>
-              match quantityOf p2 with
-              | .error e => .error e
-              | .ok q2 => arrayCompute env op q1 q2 r1 r2
+            | .ok n2 =>
+              if n1 != n2 then .error .value
+              else
+                match quantityOf p1 with
+                | .error e => .error e
+                | .ok q1 =>
+                  match quantityOf p2 with
+                  | .error e => .error e
+                  | .ok q2 => arrayCompute env op q1 q2 r1 r2
 
 /-! ### Python's operator dispatch for `lhs op rhs` -/
 
@@ -541,6 +606,7 @@ def binop (env : Env) (numpyDefers : Bool) (op : Op) (lhs rhs : Operand) : Excep
   match lhs with
   | .scalar q v => scalarDoOp env q v lhs rhs op
   | .array .. => arrayDoOp env lhs rhs op
+  | .array0 .. => arrayDoOp env lhs rhs op
   | _ =>
     let fromNumpy := match lhs with
       | .num np _ => np
@@ -549,7 +615,12 @@ def binop (env : Env) (numpyDefers : Bool) (op : Op) (lhs rhs : Operand) : Excep
     match rhs with
     | .scalar q v => if fromNumpy && !numpyDefers then .ok .bare else scalarDoOp env q v lhs rhs op
     | .array .. => if fromNumpy && !numpyDefers then .ok .bare else arrayDoOp env lhs rhs op
+    | .array0 .. => if fromNumpy && !numpyDefers then .ok .bare else arrayDoOp env lhs rhs op
     | _ => .ok .bare
+
+/-- the legacy reflected operator `Array.__rdiv__(self, other)` (Python 2's `other / self`; Python 3 never calls
+it, a caller can): `self._DoOperation(other, self, "Divide")`, the body of `__rtruediv__` -/
+def arrayRDiv (env : Env) (self other : Operand) : Except ErrKind Out := arrayDoOp env other self .div
 
 /-! ### `Array.FromScalars`, `Array.GetAbstractValue`, `Scalar.GetAbstractValue` (simple quantities) -/
 
@@ -600,5 +671,125 @@ def arrayGetValues (env : Env) (cat unit : Sym) (kind : Kind) (vs : List Rat) (u
       match mapE (env.convert cat unit u) vs with
       | .error e => .error e
       | .ok ws => .ok (kind, ws)
+
+/-! ### `Array.FromScalars(scalars, *, unit=None, category=None)`: every argument form, any quantity -/
+
+/-- a `Scalar`: its quantity (simple, derived or empty) and its value -/
+structure QScalar where
+  q : Quantity
+  v : Rat
+deriving DecidableEq, Repr
+
+/-- `ObtainQuantity(dict)` hands a dict of one item with exponent 1 over to the simple branch -/
+def isSimpleQ : Quantity → Bool
+  | [e] => e.exp == 1
+  | _ => false
+
+def unitPairs (q : Quantity) : List (Str.Str × Int) := q.map (fun e => (Sym.bytes e.unit, e.exp))
+def catPairs (q : Quantity) : List (Str.Str × Int) := q.map (fun e => (Sym.bytes e.cat, e.exp))
+
+/-- `Quantity.GetUnit()`: the unit of a simple quantity; for a derived one
+`_CreateUnitsWithJoinedExponentsString()` over `GetComposingUnitsJoiningExponents()` (`''` for the empty one) -/
+def quantityUnit : Quantity → Sym
+  | [e] => if e.exp == 1 then e.unit else Sym.ofBytes (Str.renderUnit (Str.joinExps (unitPairs [e])))
+  | q => Sym.ofBytes (Str.renderUnit (Str.joinExps (unitPairs q)))
+
+/-- `Quantity.GetCategory()`: the category, or `_MakeStr` of the (category, exponent) items -/
+def quantityCategory : Quantity → Sym
+  | [e] => if e.exp == 1 then e.cat else Sym.ofBytes (Str.makeStr (catPairs [e]))
+  | q => Sym.ofBytes (Str.makeStr (catPairs q))
+
+/-- `Scalar.GetValue(unit)` = `Quantity.ConvertScalarValue(value, unit)`: the same unit string returns the value;
+a simple quantity converts through the two `UnitInfo`s; a derived one calls `UnitDatabase.Convert` with its
+composing units, which `_ConvertWithExp` answers: no composing unit → the value as it is, one composing unit
+(its exponent is not 1, the target's is) → `ValueError`, several → `ComposedUnitError` -/
+def QScalar.getValue (env : Env) (s : QScalar) (u : Sym) : Except ErrKind Rat :=
+  if quantityUnit s.q == u then .ok s.v
+  else
+    match s.q with
+    | [] => .ok s.v
+    | [e] =>
+      if e.exp == 1 then
+        match env.qtype e.cat with
+        | .error err => .error err
+        | .ok qt => env.convert qt e.unit u s.v
+      else .error .value
+    | _ :: _ :: _ => .error .units
+
+/-- `x or default` for an optional string argument: `None` and `''` are falsy -/
+def pyOr (o : Option Sym) (d : Sym) : Sym :=
+  match o with
+  | some s => if s == 0 then d else s
+  | none => d
+
+/-- `cls(values=values, unit=unit, category=category)` with two strings and a list:
+`ObtainQuantity(unit, category)` and the values kept as they are -/
+def newArray (env : Env) (vs : List Rat) (u c : Sym) : Except ErrKind Out :=
+  match env.obtainSimple c u with
+  | .error e => .error e
+  | .ok u' => .ok (.array [⟨c, u', 1⟩] .list vs)
+
+/-- the `StopIteration` branch of `FromScalars` (no Scalar given) -/
+def fromScalarsNone (env : Env) (unit category : Option Sym) : Except ErrKind Out :=
+  match unit, category with
+  | none, none => .ok (.array emptyQ .list [])                 -- CreateEmptyArray()
+  | some u, none =>
+    match env.defaultCategory u with                           -- GetDefaultCategory(unit)
+    | .error e => .error e
+    | .ok (some c) => newArray env [] u c
+    | .ok none =>
+      -- cls(values=[], unit=unit, category=None): the shared constructor takes a non-string first argument for
+      -- the value, so `unit` lands in the category slot: GetCategoryInfo(unit), and when that is a category,
+      -- ObtainQuantity([], unit) asserts that the category is a list
+      match env.qtype u with
+      | .error e => .error e
+      | .ok _ => .error .assertion
+  | _, some _ => .error .assertion                             -- assert unit is None / "the unit must be specified too"
+
+/-- `Array.FromScalars(scalars, unit=…, category=…)` -/
+def fromScalarsKw (env : Env) (ss : List QScalar) (unit category : Option Sym) : Except ErrKind Out :=
+  match ss with
+  | [] => fromScalarsNone env unit category
+  | s0 :: rest =>
+    let u := pyOr unit (quantityUnit s0.q)
+    let c := pyOr category (quantityCategory s0.q)
+    match mapE (fun s => s.getValue env u) (s0 :: rest) with
+    | .error e => .error e
+    | .ok vs => newArray env vs u c
+
+/-! ### `Array.GetValues(unit)` over a list / tuple of tuples, `Array.__str__` -/
+
+/-- `Array.GetValues(unit)` when the first element is a tuple (`IsListOfTuples`), simple quantity: every element
+of every row through `Quantity.Convert`; rows come back as tuples in a container of the same type -/
+def arrayGetValuesRows (env : Env) (cat unit : Sym) (rows : List (List Rat)) (u : Sym) :
+    Except ErrKind (List (List Rat)) :=
+  if unit == u then .ok rows
+  else mapE (fun row => mapE (fun v =>
+    match env.convertLookup cat unit u with
+    | .error e => .error e
+    | .ok _ => env.convert cat unit u v) row) rows
+
+/-- `" ".join(texts)` -/
+def joinSpace : List Str.Str → Str.Str
+  | [] => []
+  | [t] => t
+  | t :: rest => t ++ [32] ++ joinSpace rest
+
+/-- one element of the values of an Array as `__str__` sees it: the two texts Python would produce for it -/
+structure ElemText where
+  /-- `isinstance(v, tuple)` -/
+  isTuple : Bool
+  /-- `str(v)` -/
+  str : Str.Str
+  /-- `FormatFloat("%g", v)` -/
+  g : Str.Str
+
+/-- `Array.__str__`: `str(v)` of every element when the FIRST one is a tuple, `FormatFloat("%g", v)` otherwise,
+joined by blanks, followed by `GetFormattedSuffix()` = `" [%s]" % unit` -/
+def arrayStr (q : Quantity) (elems : List ElemText) : Str.Str :=
+  let texts := match elems with
+    | e :: _ => if e.isTuple then elems.map (·.str) else elems.map (·.g)
+    | [] => []
+  joinSpace texts ++ [32, 91] ++ Sym.bytes (quantityUnit q) ++ [93]
 
 end Barril.Ops
